@@ -21,7 +21,9 @@ RULE = ("rotation: circular records of the C03 layout families (gap sequences ar
         "through genes, cores and neighbourhoods included) on rule hits per gene, protoclusters, candidate "
         "clusters and regions by member genes. order: linear and circular records x rulesets of 2-3 rules: all "
         "ordered sub-selections (permutations of every non-empty subset) compared per rule among the runs in "
-        "which the same SUPERIORS of that rule are present. thorough adds wider menus and seeded random cases. "
+        "which the same SUPERIORS of that rule are present; plus 3-rule SUPERIORS chains (A > B > C) and a 4-rule "
+        "diamond on layouts where one gene satisfies two linked rules (overlaps chained, not mutual), all rule "
+        "listing orders. thorough adds wider menus and seeded random cases. "
         "non-trivial = (rotation) the new origin falls inside a gene, a core or a neighbourhood of the base "
         "record, (order) the ruleset has two different cutoffs or a SUPERIORS link; distinct = distinct "
         "(record, hits, ruleset, rotation / ordering).")
@@ -44,6 +46,22 @@ ORD_RULESETS = [
     [_rule("r0", C2, 2, "a"), _rule("r1", C1, 5, "b", sup=["r0"]), _rule("r2", C2, 2, "a or b", sup=["r0"])],
     [_rule("r0", C1, 2, "a and not c"), _rule("r1", C2, 5, "minimum(2,[a,b])"), _rule("r2", C1, 5, "a", ext="c")],
 ]
+
+
+# chains of SUPERIORS (A > B > C) and a diamond (D inferior to B and C, both inferior to A): whether an inferior
+# protocluster is dropped must not depend on the order in which the rules (hence the protoclusters) are listed
+ORD_CHAINS = [
+    [_rule("rA", C1, 2, "a"), _rule("rB", C2, 2, "b", sup=["rA"]), _rule("rC", C1, 2, "c", sup=["rB"])],
+    [_rule("rA", C2, 2, "a"), _rule("rB", C1, 5, "b", sup=["rA"]), _rule("rC", C2, 2, "c", sup=["rB"])],
+]
+ORD_DIAMOND = [
+    [_rule("rA", C1, 2, "a"), _rule("rB", C2, 2, "b", sup=["rA"]), _rule("rC", C2, 2, "c", sup=["rA"]),
+     _rule("rD", C1, 2, "a or b", sup=["rB", "rC"])],
+]
+# overlaps that are chained rather than mutual: one gene satisfies two linked rules, the next one the next link
+CHAIN_HITS2 = [("bc", "ab"), ("ab", "bc"), ("abc", "b"), ("c", "ab")]
+CHAIN_HITS3 = [("c", "bc", "ab"), ("ab", "bc", "c"), ("bc", "b", "ab"), ("bc", "ab", "c"), ("b", "abc", "c"),
+               ("ac", "b", "bc")]
 
 
 def rotation_families(tier: str) -> Dict[str, Dict[str, Any]]:
@@ -78,6 +96,13 @@ def order_families(tier: str) -> Dict[str, Dict[str, Any]]:
         "ord3": {"lens": (3, 4, 3), "gaps": gaps,
                  "hits": [("a", "b", "a"), ("ab", "c", "b"), ("b", "a", "c")], "rulesets": ORD_RULESETS,
                  "leads": [0, 3], "tails": [0, 6], "cuts": -2 if not wide else -1},
+        "ordchain2": {"lens": (3, 4), "gaps": [0, C1 - 1, C1, C2 - 1, C2, FAR], "hits": CHAIN_HITS2,
+                      "rulesets": ORD_CHAINS, "leads": [0, 3], "tails": [0, 6], "cuts": -2 if not wide else 0},
+        "ordchain3": {"lens": (3, 4, 3), "gaps": [0, C1 - 1, C2 - 1, FAR] if not wide else [0, C1 - 1, C1, C2 - 1, C2, FAR],
+                      "hits": CHAIN_HITS3, "rulesets": ORD_CHAINS, "leads": [0], "tails": [3],
+                      "cuts": -2},
+        "orddiamond": {"lens": (3, 4, 3), "gaps": [0, C1 - 1, C2 - 1, FAR], "hits": CHAIN_HITS3[:4],
+                       "rulesets": ORD_DIAMOND, "leads": [0], "tails": [3], "cuts": -2, "sel": "perm"},
         "ord2": {"lens": (3, 4), "gaps": gaps + [C1 - 1, 14] if not wide else gaps + [C1 + 1, C2 + 1, 14],
                  "hits": [("a", "b"), ("ab", "c")],
                  "rulesets": ORD_RULESETS, "leads": [0, 3], "tails": [0, 6], "cuts": -1 if not wide else 0},
@@ -104,7 +129,7 @@ def ring_bases(fam: Dict[str, Any]) -> Iterator[Dict[str, Any]]:
 
 
 PARTS = {"rot-tiny2": 1, "rot-nbh3": 8, "rot-chain3": 8, "rot-pair3": 12, "rot-sup3": 10, "rot-ext3": 8, "rot-cond3": 10, "rot-chain4": 10,
-         "ord3": 10, "ord2": 2}
+         "ord3": 10, "ord2": 2, "ordchain2": 2, "ordchain3": 6, "orddiamond": 6}
 
 
 def shards(tier: str, seed: int) -> list:
@@ -160,20 +185,6 @@ def crash_label(sub: Dict[str, Any]) -> str:
     return "[crash:" + labelled.split("[", 1)[1] if "[" in labelled else ""
 
 
-def stacked_over_origin(case: Dict[str, Any]) -> bool:
-    """ two expected protoclusters overlap (they form a multi-protocluster candidate) and one of them
-        crosses the origin: candidate clusters are de-duplicated by (location.start, location.end), which is
-        (0, L) for every origin-crossing location """
-    length = case["L"]
-    areas = [bases for _, _, bases in chk.expected_areas(case)]
-    crossing = [0 in bases and length - 1 in bases and len(bases) < length for bases in areas]
-    for i in range(len(areas)):
-        for j in range(i + 1, len(areas)):
-            if areas[i] & areas[j] and (crossing[i] or crossing[j]):
-                return True
-    return False
-
-
 def compare_rotation(base: Dict[str, Any], base_obs: model.Observed, cut: int
                      ) -> List[Tuple[str, bool, str]]:
     """ the clauses of the rotation half of C07 for one rotation of one base record """
@@ -190,8 +201,6 @@ def compare_rotation(base: Dict[str, Any], base_obs: model.Observed, cut: int
     first, second = signature(base, base_obs), signature(turned, obs)
     for key, clause in ROT_CLAUSES.items():
         same = first[key] == second[key]
-        if key == "candidates" and not suffix and (stacked_over_origin(base) or stacked_over_origin(turned)):
-            clause += "[stacked-areas-over-origin]"
         out.append((clause + suffix, same,
                     "" if same else f"origin moved to base {cut}: {key} {first[key]} became {second[key]}"))
     return out
@@ -205,9 +214,14 @@ def rotation_nontrivial(base: Dict[str, Any], areas: Sequence[Any], cut: int) ->
     return any(cut in bases and (cut - 1) % length in bases for _, _, bases in areas)
 
 
-def ordered_selections(rules: Sequence[Dict[str, Any]]) -> List[List[Dict[str, Any]]]:
+def ordered_selections(rules: Sequence[Dict[str, Any]], mode: str = "all") -> List[List[Dict[str, Any]]]:
+    """ mode "all": every permutation of every non-empty subset; mode "perm" (rulesets of 4 rules): every
+        permutation of the full set, and every proper non-empty subset once, in listing order """
     out = []
     for size in range(1, len(rules) + 1):
+        if mode == "perm" and size < len(rules):
+            out.extend(list(subset) for subset in itertools.combinations(rules, size))
+            continue
         for subset in itertools.permutations(rules, size):
             out.append(list(subset))
     return out
@@ -230,7 +244,7 @@ def compare_orders(case: Dict[str, Any]) -> List[Tuple[str, bool, str, Dict[str,
         Returns (clause, holds, detail, where) with where = the rule and the two orderings compared. """
     rules = case["rules"]
     runs = []
-    for selection in ordered_selections(rules):
+    for selection in ordered_selections(rules, case.get("sel", "all")):
         names = [r["n"] for r in selection]
         runs.append((names, dict(case, rules=selection), model.observe(case, rules=selection)))
     out = []
@@ -334,6 +348,8 @@ def run_shard(shard: Dict[str, Any], run: Any) -> None:
         fam = order_families(run.tier)[shard["fam"]]
         for index, case in enumerate(chk.family_cases(fam)):
             if index % shard["of"] == shard["part"]:
+                if fam.get("sel"):
+                    case["sel"] = fam["sel"]
                 _order_case(case, run)
                 if run.out_of_time():
                     return
@@ -394,17 +410,6 @@ def _classifier(suffix: str) -> Any:
     return predicate
 
 
-def _stacked_classifier(clause: str, case: Any) -> bool:
-    """ C07-F11 """
-    if clause != "rotation-same-candidate-clusters[stacked-areas-over-origin]" or not isinstance(case, dict):
-        return False
-    if case.get("kind") != "rotation":
-        return False
-    base = case["base"]
-    turned = chk.rotate_case(base, case["cut"])
-    return not pair_label(base, turned) and (stacked_over_origin(base) or stacked_over_origin(turned))
-
-
 def _crash_classifier(clause: str, case: Any) -> bool:
     """ C07-F10: one of the two compared rulesets lies in a crash class of C03 """
     if not clause.startswith("order-no-exception[crash:") or not isinstance(case, dict) or "base" not in case:
@@ -422,4 +427,4 @@ def _crash_classifier(clause: str, case: Any) -> bool:
 
 FINDING_CLASSES: Dict[str, Any] = {fid: _classifier(suffix) for fid, suffix in ROOTS.items()}
 FINDING_CLASSES["C07-F10"] = _crash_classifier
-FINDING_CLASSES["C07-F11"] = _stacked_classifier
+# C07-F11 (candidate look-up key) was repaired in /repo: no input class any more, the witness is a regression test
